@@ -1,6 +1,7 @@
 import MsiProofs.Props.C08
 import MsiProofs.Lemmas.RefineExact
 import MsiProofs.Lemmas.GlobalInv
+import MsiProofs.Lemmas.GlobalInvUpd
 /-
 C08, as an invariant of the operations — reference counts stay exact.  `AccountedWith slack p cells`:
 for every pool entry, (number of cells referring to it) + slack = its reference count.  Insert and
@@ -36,5 +37,10 @@ counting exact over the whole package** (induction over the request list, no bou
 def history_inv := @MsiProofs.GlobalInv.history_inv
 def insert_inv := @MsiProofs.GlobalInv.insert_inv
 def delete_inv := @MsiProofs.GlobalInv.delete_inv
+
+/-- **`Update::exec` keeps reference counting exact**; and so does every history of inserts, updates
+and deletes -/
+def update_inv := @MsiProofs.GlobalInvUpd.update_inv
+def dml_history_inv := @MsiProofs.GlobalInvUpd.history_inv
 
 end MsiProofs.C08
